@@ -25,6 +25,12 @@ def finaliser(ctx, crate, s, want):
     rets = s.e.phi_ops.get(s.r.ret, {s.r.ret}) if s.r.returns else set()
     got = sorted({prod.get(x, "?") for x in rets})
     ctx.report(clause, "%s:returns-through-%s" % (s.op, want), got == [want], "result built by %s" % got, at=s.body.span, kind="N")
+    # and it is built once, after the merge: a second finaliser call is an early exit that answers
+    # without walking the two operands (a "quick rejection" decided on raw values, first / last entries,
+    # sizes ... — none of which says what the cells of two BMOCs have in common)
+    nf = [ev for ev in s.e.events.values() if ev.callee in fins and len(ev.site) == 2]
+    ctx.report(clause, "%s:single-exit-after-the-merge" % s.op, len(nf) == 1, "one finaliser call" if len(nf) == 1 else
+               "%d finaliser calls in %s (%s): the operator can return before the merge loops have looked at the operands" % (len(nf), s.op, [ev.at for ev in nf]), at=s.body.span, kind="N")
 
 
 def run(ctx):
@@ -37,6 +43,8 @@ def run(ctx):
     fill_helpers(ctx, crate)
     from rules.c08 import containment_test
     containment_test(ctx, crate)
+    from rules.c08 import consume_tests
+    consume_tests(ctx, crate)
     from rules import c07_goup
     c07_goup.run(ctx, crate)
     from rules.c15 import pack_rule
